@@ -194,7 +194,9 @@ func (ic *inferContext) inferRelTypesFromPremise(premises []ast.Term, state *inf
 			alternatives, err = bc.getOrInferRelTypes(atom.Predicate, atom.Args, state.asMap(), typeCtx)
 		}
 		if err != nil {
-			return nil, fmt.Errorf("type mismatch %v : %v ", premise, err)
+			// The negated atom cannot match at these types, so it holds trivially
+			// and says nothing about the types: keep the alternative.
+			return []*inferState{state.makeNext()}, nil
 		}
 		// For negated premise, there is never a variable bound so we never need to add
 		// a binding. We can refine existing bindings by using negative information.
